@@ -35,6 +35,10 @@ CLAIMS = {
    technique="runtime monitoring: signed federation requests carried through real HTTP/1.1 framing into VerifyHTTPRequest; monitors compare the reported method/URI/origin/destination/body with what was signed and assert refusal under ~35 single-field tamperings, key-validity faults and foreign receivers, acceptance under legal header/body re-spellings",
    text="Each generated request (methods x escaped paths/queries x bodies x DNS/IPv4/IPv6 names with and without ports x key IDs x single- or multi-name receivers) is signed with the real API, written with http.Request.Write and re-read with http.ReadRequest; the untampered request must verify and report exactly what was signed, re-spelled headers/bodies must still verify, and every tampering class (request line, each Authorization parameter, duplicated/conflicting/garbage headers, body value/absence/UTF-8/JSON validity, content type, key expired / past valid_until / wrong / unknown, receiver not owning the destination) must be refused.",
    note=TB + "net/http; key validity offsets of +-1 h around the wall clock (one-sided); abstains on a missing destination parameter and on auth-scheme case."),
+ "C17": dict(level="exploration", design="§4 C17",
+   technique="runtime monitoring: reference identifier grammars vs NewUserID/NewRoomID/ParseAndValidateServerName on grammar-generated, single-edit and random strings; encoding/base64 as oracle for Base64Bytes; boundary-value enumeration of the event size limits on build and on receipt per version; exhaustive comparison of the room-version trait table (public getters + behavioural probes) with the specification table",
+   text="Identifier parsers are observed on ~20k strings (valid by construction, one edit away from valid, arbitrary bytes) against independent grammars, including re-concatenation of the reported parts; base64 on every length 0-70 in both alphabets; each size limit at 254/255/256 units in bytes and code points with 1-4 byte runes and JSON at 65535-65537 bytes, on Build and on NewEventFromUntrustedJSON, for every registered version; and every cell of the 16x17 room-version table (exhaustive_subspace in the evidence). The table part is complete; the rest is sampled.",
+   note=TB + "abstains on '+' in localparts, stand-alone length limits of room IDs / server names, unusual port spellings, v12 room-ID length, pseudo-ID senders, the v11 room_version clause of the create rules."),
 }
 NOT_YET = "check not built yet (work in progress; see DESIGN.md §4 for the planned monitor)"
 
